@@ -25,6 +25,7 @@ import (
 	pp "github.com/pires/go-proxyproto"
 
 	v1 "github.com/fatedier/frp/pkg/config/v1"
+	netpkg "github.com/fatedier/frp/pkg/util/net"
 	"github.com/fatedier/frp/pkg/vnet"
 )
 
@@ -110,3 +111,40 @@ func (l *Listener) Close() error {
 func (l *Listener) Addr() net.Addr {
 	return (*net.TCPAddr)(nil)
 }
+
+// serverConn returns the connection on which a plugin's http.Server serves a work connection.
+//
+// http.Server interrupts its background read between two requests (and when a handler aborts) by setting a read
+// deadline in the past on the connection. When the work connection is wrapped by encryption or compression, that
+// timeout error surfaces inside the decrypting / decompressing reader, where it is sticky: the next request on the
+// same connection would fail. Such connections are therefore served through an in-memory pipe: deadlines act on the
+// pipe, and the wrapped connection is only ever read by the goroutine that feeds the pipe.
+func serverConn(connInfo *ConnectionInfo, useSrcAddr bool) net.Conn {
+	conn := netpkg.WrapReadWriteCloserToConn(connInfo.Conn, connInfo.UnderlyingConn)
+	if useSrcAddr && connInfo.SrcAddr != nil {
+		conn.SetRemoteAddr(connInfo.SrcAddr)
+	}
+	if connInfo.Conn == io.ReadWriteCloser(connInfo.UnderlyingConn) {
+		return conn
+	}
+	local, remote := net.Pipe()
+	go func() {
+		_, _ = io.Copy(remote, conn)
+		_ = remote.Close()
+	}()
+	go func() {
+		_, _ = io.Copy(conn, remote)
+		_ = conn.Close()
+	}()
+	return &pipedConn{Conn: local, localAddr: conn.LocalAddr(), remoteAddr: conn.RemoteAddr()}
+}
+
+// pipedConn is the server's end of the pipe, reporting the addresses of the connection behind it.
+type pipedConn struct {
+	net.Conn
+	localAddr, remoteAddr net.Addr
+}
+
+func (c *pipedConn) LocalAddr() net.Addr { return c.localAddr }
+
+func (c *pipedConn) RemoteAddr() net.Addr { return c.remoteAddr }
